@@ -459,7 +459,7 @@ def verify_contract(E, con, thorough=False):
         for lab, f in eval_clause(con.requires, pre, views_of(pre, bound, pre.old_heap)).items():
             ctx.assume(f)
         s = z3.Solver()
-        s.set("timeout", Z3_TIMEOUT_MS)
+        s.set("timeout", 3000 if any(z3.is_quantifier(f) for f in ctx.pc) else Z3_TIMEOUT_MS)   # quantified invariants: a model is out of reach anyway; what matters is that `unsat` is not derived
         s.add(*ctx.pc)
         res.requires_sat = str(s.check())
         if res.requires_sat == "unknown" and con.witness is not None:
